@@ -54,6 +54,8 @@ var _ *openfgav1.Userset
 //@   -- (no field of an existing node or edge and no edge list is written: the engine derives this frame from the body)
 //@   -- graph and representation invariants are preserved
 //@   ensures nodes_wf: old(wfNodes(wg)) ==> wfNodes(wg) && result.uniqueLabel == uniqueLabel
+//@   ensures range_kept: old(inRangeE() && inRangeN()) ==> inRangeE() && inRangeN()
+//@   ensures nodes_filed: old(nodesFiled(wg)) ==> nodesFiled(wg)
 //@   ensures separated: old(sepWildcards()) ==> sepWildcards()
 //@   ensures conds_separated: old(sepConds()) ==> sepConds()
 
@@ -88,6 +90,7 @@ var _ *openfgav1.Userset
 
 //@ func (*WeightedAuthorizationModelGraph).AddEdge
 //@   props C10 C11 C04
+//@   ensures range_kept: old(inRangeE() && inRangeN()) ==> inRangeE() && inRangeN()
 //@   opaque_strings
 //@   requires wg != nil && wg.edges != nil
 //@   -- exactly one edge is appended to the list of fromID
@@ -143,6 +146,7 @@ var _ *openfgav1.Userset
 
 //@ func (*WeightedAuthorizationModelGraph).UpsertEdge
 //@   props C10 C05 C11 C04
+//@   ensures range_kept: old(inRangeE() && inRangeN()) ==> inRangeE() && inRangeN()
 //@   opaque_strings
 //@   requires wg != nil && wg.edges != nil
 //@   requires fromNode != nil ==> wfEdgeList(wg.edges[fromNode.uniqueLabel])
@@ -224,6 +228,8 @@ var _ *openfgav1.Userset
 //@   -- (no field of an existing node or edge is written: the engine derives this frame from the bodies of the callees)
 //@   -- graph and representation invariants are preserved
 //@   ensures graph_ok_nodes: wfNodes(wg)
+//@   ensures nodes_filed: old(nodesFiled(wg)) ==> nodesFiled(wg)
+//@   ensures range_kept: old(inRangeE() && inRangeN()) ==> inRangeE() && inRangeN()
 //@   ensures graph_ok_edges: old(wfAllEdges(wg)) ==> wfAllEdges(wg)
 //@   ensures lists_separated: old(sepEdges(wg)) ==> sepEdges(wg)
 //@   ensures separated: old(sepWildcards()) ==> sepWildcards()
@@ -657,8 +663,14 @@ var _ *openfgav1.Userset
 //@   ensures other_headers_kept: forall k string :: k != parentNode.uniqueLabel ==> wg.edges[k] == old(wg.edges[k]) && has(wg.edges, k) == old(has(wg.edges, k))
 //@   -- graph and representation invariants are preserved
 //@   ensures graph_ok_nodes: wfNodes(wg)
+//@   ensures nodes_filed: old(nodesFiled(wg)) ==> nodesFiled(wg)
+//@   ensures range_kept: old(inRangeE() && inRangeN()) ==> inRangeE() && inRangeN()
+//@   ensures wild_kept: old(sepWildcards()) ==> sepWildcards()
 //@   ensures parent_list_ok: wfEdgeList(wg.edges[parentNode.uniqueLabel])
 //@   loop 1 invariant nodes_wf: wfNodes(wg)
+//@   loop 1 invariant nodes_filed: old(nodesFiled(wg)) ==> nodesFiled(wg)
+//@   loop 1 invariant range_kept: old(inRangeE() && inRangeN()) ==> inRangeE() && inRangeN()
+//@   loop 1 invariant wild_kept: old(sepWildcards()) ==> sepWildcards()
 //@   loop 1 invariant parent_in_graph: wg.nodes[parentNode.uniqueLabel] == parentNode
 //@   loop 1 invariant parent_list_wf: wfEdgeList(wg.edges[parentNode.uniqueLabel])
 //@   loop 1 invariant extended: len(wg.edges[parentNode.uniqueLabel]) >= old(len(wg.edges[parentNode.uniqueLabel]))
@@ -704,8 +716,14 @@ var _ *openfgav1.Userset
 //@   ensures existing_nodes_kept: forall k string :: old(wg.nodes[k]) != nil ==> wg.nodes[k] == old(wg.nodes[k])
 //@   ensures other_headers_kept: forall k string :: k != parentNode.uniqueLabel ==> wg.edges[k] == old(wg.edges[k]) && has(wg.edges, k) == old(has(wg.edges, k))
 //@   ensures graph_ok_nodes: wfNodes(wg)
+//@   ensures nodes_filed: old(nodesFiled(wg)) ==> nodesFiled(wg)
+//@   ensures range_kept: old(inRangeE() && inRangeN()) ==> inRangeE() && inRangeN()
+//@   ensures wild_kept: old(sepWildcards()) ==> sepWildcards()
 //@   ensures parent_list_ok: wfEdgeList(wg.edges[parentNode.uniqueLabel])
 //@   loop 1 invariant nodes_wf: wfNodes(wg)
+//@   loop 1 invariant nodes_filed: old(nodesFiled(wg)) ==> nodesFiled(wg)
+//@   loop 1 invariant range_kept: old(inRangeE() && inRangeN()) ==> inRangeE() && inRangeN()
+//@   loop 1 invariant wild_kept: old(sepWildcards()) ==> sepWildcards()
 //@   loop 1 invariant parent_in_graph: wg.nodes[parentNode.uniqueLabel] == parentNode
 //@   loop 1 invariant parent_list_wf: wfEdgeList(wg.edges[parentNode.uniqueLabel])
 //@   loop 1 invariant defined_so_far: forall j int :: 0 <= j && j < $i ==> definesRelation(model, ttuParents(typeDef, rewrite)[j].GetType(), ttuComputed(rewrite))
@@ -752,7 +770,13 @@ var _ *openfgav1.Userset
 //@   ensures error_is_invalid_model: err != nil ==> wraps(err, ErrInvalidModel)
 //@   ensures existing_nodes_kept: forall k string :: old(wg.nodes[k]) != nil ==> wg.nodes[k] == old(wg.nodes[k])
 //@   ensures graph_ok_nodes: wfNodes(wg)
+//@   ensures nodes_filed: old(nodesFiled(wg)) ==> nodesFiled(wg)
+//@   ensures range_kept: old(inRangeE() && inRangeN()) ==> inRangeE() && inRangeN()
+//@   ensures wild_kept: old(sepWildcards()) ==> sepWildcards()
 //@   loop 1 invariant nodes_wf: wfNodes(wg)
+//@   loop 1 invariant nodes_filed: old(nodesFiled(wg)) ==> nodesFiled(wg)
+//@   loop 1 invariant range_kept: old(inRangeE() && inRangeN()) ==> inRangeE() && inRangeN()
+//@   loop 1 invariant wild_kept: old(sepWildcards()) ==> sepWildcards()
 //@   loop 1 invariant nodes_kept: forall k string :: old(wg.nodes[k]) != nil ==> wg.nodes[k] == old(wg.nodes[k])
 //@   loop 1 invariant op_in_graph: operatorNode != nil && wg.nodes[operatorNode.uniqueLabel] == operatorNode
 //@   loop 1 invariant union_children: is(rewrite.GetUserset(), *openfgav1.Userset_Union) ==> children == rewrite.GetUnion().GetChild()
@@ -870,9 +894,21 @@ var _ *openfgav1.Userset
 //@   -- C13 "the result of a call depends only on its arguments": Build keeps no state in the builder it is called on
 //@   readonly_receiver
 //@   requires wf_oneofs: forall u *openfgav1.Userset :: wfUserset(u)
+//@   -- type invariant of the graph package (only its own functions write weights): every weight map in the heap is in range
+//@   requires weights_in_range: inRangeE() && inRangeN()
+//@   requires wildcards_separated: sepWildcards()
 //@   ensures error_is_sentinel: err != nil ==> wraps(err, ErrModelCycle) || wraps(err, ErrTupleCycle) || wraps(err, ErrInvalidModel)
 //@   ensures graph_iff_accepted: (err == nil) <==> (result0 != nil)
 //@   ensures fresh_graph: result0 != nil ==> fresh(result0)
 //@   loop 1 invariant graph: wb != nil && fresh(wb) && wb.nodes != nil && wb.edges != nil && fresh(wb.nodes) && fresh(wb.edges) && wfNodes(wb)
+//@   loop 1 invariant nodes_filed: nodesFiled(wb)
+//@   loop 1 invariant range_kept: inRangeE() && inRangeN()
+//@   loop 1 invariant wild_kept: sepWildcards()
 //@   loop 1.1 invariant graph: wb != nil && fresh(wb) && wb.nodes != nil && wb.edges != nil && fresh(wb.nodes) && fresh(wb.edges) && wfNodes(wb)
+//@   loop 1.1 invariant nodes_filed: nodesFiled(wb)
+//@   loop 1.1 invariant range_kept: inRangeE() && inRangeN()
+//@   loop 1.1 invariant wild_kept: sepWildcards()
 //@   loop 1.2 invariant graph: wb != nil && fresh(wb) && wb.nodes != nil && wb.edges != nil && fresh(wb.nodes) && fresh(wb.edges) && wfNodes(wb)
+//@   loop 1.2 invariant nodes_filed: nodesFiled(wb)
+//@   loop 1.2 invariant range_kept: inRangeE() && inRangeN()
+//@   loop 1.2 invariant wild_kept: sepWildcards()
